@@ -15,6 +15,8 @@ Local Open Scope list_scope.
 Definition two64 : Z := 2 ^ 64.
 Definition max_id : Z := two64 - 1.                     (* math.MaxUint64 *)
 Definition next_id (id : Z) : Z := (id + 1) mod two64.  (* uint64 addition *)
+(* endKey = path(math.MaxUint64) + "\x00": the exclusive end lies just past the key of the largest id *)
+Definition range_end : Z := two64.
 
 Inductive status := RDone | RFailed | RDiverged.
 
@@ -40,7 +42,7 @@ Section Paging.
     match fuel with
     | O => (RDiverged, acc, m, c)
     | S f =>
-        let page := range m next max_id limit in
+        let page := range m next range_end limit in
         if fails call page then
           let limit' := limit / 2 in
           if min_limit <=? limit' then page_loop f m next limit' (S call) c acc
@@ -48,7 +50,8 @@ Section Paging.
         else
           let '(m', c', next') := fold_left step_item page (m, c, next) in
           let acc' := acc ++ page in
-          if Z.of_nat (length page) <? limit then (RDone, acc', m', c')
+          (* if len(res) < limit || nextID == 0 { return nil }  -- nextID == 0: the id wrapped, all visited *)
+          if (Z.of_nat (length page) <? limit) || (next' =? 0) then (RDone, acc', m', c')
           else page_loop f m' next' limit (S call) c' acc'
     end.
 
@@ -192,8 +195,11 @@ Definition run_op (s : sstate) (o : op) : sstate * obs :=
         else (flush_batch (SS (stores s) (lweight s) (rweight s) (base_r s) (ldb s) b (cache_size s) (use_rs s) (loaded_once s) (budget s)), BUnit)
       else (SS (stores s) (lweight s) (rweight s) (put (base_r s) id v) (ldb s) (batch s) (cache_size s) (use_rs s) (loaded_once s) (budget s), BUnit)
   | ODeleteRegion id =>
-      (* deleteRegion(kv, region): straight to the selected kv — the batch is not consulted *)
-      (set_regions s (use_rs s) (del (regions_of s (use_rs s)) id), BUnit)
+      (* deleteRegion(kv, region) = kv.Remove; RegionStorage.Remove drops the pending batch entry, then leveldb's *)
+      if use_rs s
+      then (SS (stores s) (lweight s) (rweight s) (base_r s) (del (ldb s) id) (del (batch s) id) (cache_size s)
+               (use_rs s) (loaded_once s) (budget s), BUnit)
+      else (set_regions s false (del (base_r s) id), BUnit)
   | OFlush => (flush_batch s, BUnit)
   | OSwitch rs => (SS (stores s) (lweight s) (rweight s) (base_r s) (ldb s) (batch s) (cache_size s) rs (loaded_once s) (budget s), BUnit)
   | OCrash => (SS (stores s) (lweight s) (rweight s) (base_r s) (ldb s) [] 0 (use_rs s) false (budget s), BUnit)
@@ -213,8 +219,17 @@ Definition run_op (s : sstate) (o : op) : sstate * obs :=
       else collect_regions s
   | OLoadIntoCache =>
       let rs := use_rs s in
-      let '(st, acc, m', c) := load_regions (faults_of s rs) check_and_put (regions_of s rs) [] in
-      (set_regions s rs m', BCache st acc (sort_by_id c) m')
+      let m := regions_of s rs in
+      let '(st, acc, m', c) := load_regions (faults_of s rs) check_and_put m [] in
+      (* every pruning delete went through kv.Remove: in region-storage mode it also dropped the pending entry *)
+      let s1 := set_regions s rs m' in
+      let s2 := if rs
+                then SS (stores s1) (lweight s1) (rweight s1) (base_r s1) (ldb s1)
+                        (filter (fun it => match lookup m (fst it), lookup m' (fst it) with
+                                           | Some _, None => false | _, _ => true end) (batch s1))
+                        (cache_size s1) (use_rs s1) (loaded_once s1) (budget s1)
+                else s1 in
+      (s2, BCache st acc (sort_by_id c) m')
   end.
 
 (* ------------------------------------------------------------------------------------------ *)
@@ -329,7 +344,8 @@ Fixpoint mon (w : want) (ops : list op) (obs_l : list obs) : option string :=
       | OLoadStores, BStores st got =>
           match st with
           | RDone => match diff_stores (w_stores w) (w_lw w) (w_rw w) got with Some sg => Some sg | None => mon w r br end
-          | _ => Some "C17:load:stores-load-did-not-finish"
+          | RDiverged => Some "C17:load:endless-scan"
+          | RFailed => Some "C17:load:stores-load-did-not-finish"
           end
       | OSaveRegion id v, _ =>
           mon (W (w_stores w) (w_lw w) (w_rw w) (put (w_regions w) id v)
@@ -356,7 +372,8 @@ Fixpoint mon (w : want) (ops : list op) (obs_l : list obs) : option string :=
                      end
                    else (* resynchronise on what the storage really holds *)
                      mon (W (w_stores w) (w_lw w) (w_rw w) got true (w_rs w) [] (w_pending w)) r br
-               | _ => mon w r br   (* a failed load promises nothing *)
+               | RDiverged => Some "C17:load:endless-scan"
+               | RFailed => mon w r br   (* a failed load promises nothing *)
                end
       | OLoadOnce, BSkipped => mon w r br
       | OLoadIntoCache, BCache st loaded c after =>
@@ -373,7 +390,8 @@ Fixpoint mon (w : want) (ops : list op) (obs_l : list obs) : option string :=
                    then Some "C17:prune:max-id-left-in-storage"
               else Some "C17:prune:storage-differs-from-cache"
               end
-          | _ => mon (W (w_stores w) (w_lw w) (w_rw w) after false (w_rs w) [] (w_pending w)) r br
+          | RDiverged => Some "C17:load:endless-scan"
+          | RFailed => mon (W (w_stores w) (w_lw w) (w_rw w) after false (w_rs w) [] (w_pending w)) r br
           end
       | _, _ => Some "C17:unexpected-answer"
       end
